@@ -151,15 +151,35 @@ inline bool is_bu_toggle(const Op &o) { return o.k == VBU || o.k == EBU || o.k =
 // ------------------------------------------------------------------------------------------- dispatch
 struct PropChecks {
     std::string prop;
-    bool c01 = false, c02 = false, c03 = false, c17 = false, c12 = false, c05 = false, c08 = false, c09 = false, c10 = false, c11 = false;
+    bool c01 = false, c02 = false, c03 = false, c17 = false, c12 = false, c05 = false, c08 = false, c09 = false, c10 = false, c11 = false, c04 = false, c13 = false, c15 = false, c16 = false;
+    std::string cur_seed; Config cur_cfg; Hist cur_hist;  // set by the driver before state_checks (C13 rebuilds the state)
     explicit PropChecks(const std::string &p) : prop(p) {
         c01 = p == "C01"; c02 = p == "C02"; c03 = p == "C03"; c17 = p == "C17"; c12 = p == "C12";
-        c05 = p == "C05"; c08 = p == "C08"; c09 = p == "C09"; c10 = p == "C10"; c11 = p == "C11";
+        c05 = p == "C05"; c08 = p == "C08"; c09 = p == "C09"; c10 = p == "C10"; c11 = p == "C11"; c04 = p == "C04"; c13 = p == "C13"; c15 = p == "C15"; c16 = p == "C16";
     }
+    void rebuild_current(Sys &s) const { build_seed(s, cur_seed); for (auto &o : cur_hist) { exec_op(s, o); s.label_new(); } }
 
     std::vector<Op> menu(const Sys &s, const Bf &bf, unsigned alpha, const Caps &caps) {
-        if (c11 && (alpha & A_ADDCV)) return menu_c11(s, bf, caps);  // A_ADDCV doubles as "probe alphabet" switch for C11
+        if (c11 && (alpha & A_ADDCV)) return menu_c11(s, bf, caps);
+#if defined(MC_HEX)
+        if (c16 && (alpha & A_PERM)) return menu_c16_perm(s, bf, caps);
+#endif  // A_ADDCV doubles as "probe alphabet" switch for C11
         auto ops = mc::menu(s, bf, alpha, caps);
+        if (c15 || c16) {
+            // the tet / hex properties quantify over meshes made of proper tetrahedra / hexahedra: cells that are closed
+            // surfaces but no tets / hexes (e.g. two 'pillows') are outside their scope
+            std::vector<Op> keep;
+            for (auto &o : ops) {
+                if (o.k == ADD_CELL_HF || o.k == SET_CELL) {
+                    std::set<int> vsx;
+                    for (int i = 1; i < o.n; ++i) for (int he : bf.hfhe[o.a[i]]) vsx.insert(bf.from(he));
+                    if ((int)vsx.size() != (c15 ? 4 : 8)) continue;
+                }
+                keep.push_back(o);
+            }
+            ops.swap(keep);
+        }
+        if ((c15 || c16) && (alpha & A_ADDCV)) { auto sp = special_menu(s, bf, (alpha & A_COLLAPSE) != 0); ops.insert(ops.end(), sp.begin(), sp.end()); }
         if (c12) {
             // add_face(vertices) may reuse any of several parallel live edges; which one is unspecified and
             // legitimately depends on the incidence configuration, so such calls are left out of the differential run
@@ -181,7 +201,7 @@ struct PropChecks {
 
     // Executes o on s (and labels new entities), checking the transition-level rules of the selected property.
     void transition(Sys &s, const Op &o, Viols &vs, Stats &st, const std::string &seed, const Config &cfg, const Hist &pre_hist) {
-        const bool need_abs = c02 || c03 || c17 || c12 || c11;
+        const bool need_abs = c02 || c03 || c17 || c12 || c11 || c04 || c15 || c16;
         std::unique_ptr<Sys> twin;
         if (c12) {
             // the twin runs the same history with every incidence kind permanently enabled
@@ -204,9 +224,26 @@ struct PropChecks {
             lo = to_labels(s, o);
         }
         if (c17 && is_swap) { sv_pre = slot_view(s); key_pre = sys_key(s); }
+        std::vector<int> c04_vl, c04_hel, c04_hfl, c04_cl;  // labels per slot before the collection (-1 for pending-deleted slots)
+        if (c04 && o.k == STATUS_GC) {
+            const Mesh &m = s.m;
+            for (size_t i = 0; i < m.n_vertices(); ++i) c04_vl.push_back(m.is_deleted(VertexHandle((int)i)) ? -1 : s.vl[VertexHandle((int)i)]);
+            for (size_t i = 0; i < m.n_halfedges(); ++i) c04_hel.push_back(m.is_deleted(HalfEdgeHandle((int)i)) ? -1 : 2 * s.el[EdgeHandle((int)i / 2)] + ((int)i & 1));
+            for (size_t i = 0; i < m.n_halffaces(); ++i) c04_hfl.push_back(m.is_deleted(HalfFaceHandle((int)i)) ? -1 : 2 * s.fl[FaceHandle((int)i / 2)] + ((int)i & 1));
+            for (size_t i = 0; i < m.n_cells(); ++i) c04_cl.push_back(m.is_deleted(CellHandle((int)i)) ? -1 : s.cl[CellHandle((int)i)]);
+        }
+        bool special_op = (c15 || c16) && (o.k == ADD_CELL_V || o.k == COLLAPSE);
+#if defined(MC_TET)
+        std::set<std::vector<int>> c15_pre_cells;
+        int c15_a = -1, c15_b = -1;
+        if (special_op) { Bf bf0(s.m); c15_pre_cells = oriented_cells(s, bf0); if (o.k == COLLAPSE) { c15_a = s.vl[VertexHandle(bf0.from(o.a[0]))]; c15_b = s.vl[VertexHandle(bf0.to(o.a[0]))]; } }
+#endif
+#if defined(MC_HEX)
+        size_t c16_nf = s.m.n_faces(), c16_nc = s.m.n_cells();
+#endif
         int c11_expect = -1;  // -1 n/a, 0 must reject, 1 must accept, 2 may accept (as a set) or reject, 3 dedup (existing edge)
         std::vector<int> c11_existing;
-        if (c11 && (o.k == ADD_FACE_HE || o.k == ADD_CELL_HF || o.k == ADD_EDGE)) {
+        if ((c11 || c16) && (o.k == ADD_FACE_HE || o.k == ADD_CELL_HF || o.k == ADD_EDGE)) {
             Bf bf(s.m);
             key_pre = sys_key(s);
             std::vector<int> l;
@@ -249,15 +286,72 @@ struct PropChecks {
         OpResult opres = exec_op(s, o, c03 ? &dv : nullptr);
         s.label_new(c03 ? &dv : nullptr);
         g_phase = "post-check";
+        if (special_op) {
+#if defined(MC_TET)
+            if (o.k == COLLAPSE) {
+                // collapse_edge swaps halfedge/halfface/cell property slots between old and rebuilt entities: re-issue all
+                // non-vertex labels and compare in vertex-label space only
+                for (size_t i = 0; i < s.m.n_edges(); ++i) s.el[EdgeHandle((int)i)] = -1;
+                for (size_t i = 0; i < s.m.n_halfedges(); ++i) s.hel[HalfEdgeHandle((int)i)] = -1;
+                for (size_t i = 0; i < s.m.n_faces(); ++i) s.fl[FaceHandle((int)i)] = -1;
+                for (size_t i = 0; i < s.m.n_halffaces(); ++i) s.hfl[HalfFaceHandle((int)i)] = -1;
+                for (size_t i = 0; i < s.m.n_cells(); ++i) s.cl[CellHandle((int)i)] = -1;
+                s.label_new();
+            }
+            Bf bf1(s.m);
+            if (bf1.malformed) { VIOL(vs, "c15:malformed-after:" + std::string(OPNAMES[o.k]), o.str()); return; }
+            auto post_cells = oriented_cells(s, bf1);
+            std::set<std::vector<int>> want;
+            if (o.k == ADD_CELL_V) {
+                want = c15_pre_cells;
+                if (opres.ret >= 0) { std::vector<int> t; for (int i = 1; i <= 4; ++i) t.push_back(lo.a.empty() ? -1 : 0); t.clear(); for (int i = 1; i <= 4; ++i) t.push_back(s.vl[VertexHandle(o.a[i])]); want.insert(canon_oriented(t)); }
+                st.outcomes["c15-add_cell_v"].insert(opres.ret >= 0 ? "accepted" : "rejected");
+            } else {
+                for (auto t : c15_pre_cells) {
+                    bool ha = std::count(t.begin(), t.end(), c15_a), hb = std::count(t.begin(), t.end(), c15_b);
+                    if (ha && hb) continue;
+                    for (auto &x : t) if (x == c15_a) x = c15_b;
+                    want.insert(canon_oriented(t));
+                }
+                int rl = (opres.ret >= 0 && (size_t)opres.ret < s.m.n_vertices() && !s.m.is_deleted(VertexHandle(opres.ret))) ? s.vl[VertexHandle(opres.ret)] : -99;
+                if (rl != c15_b) VIOL(vs, "c15:collapse:returned-handle", o.str() << " returned handle " << opres.ret << " which designates vertex label " << rl << ", the target vertex has label " << c15_b);
+                for (size_t v = 0; v < s.m.n_vertices(); ++v) if (!s.m.is_deleted(VertexHandle((int)v)) && s.vl[VertexHandle((int)v)] == c15_a) VIOL(vs, "c15:collapse:source-vertex-survives", o.str());
+                st.hit("c15-collapses");
+            }
+            if (post_cells != want) {
+                std::ostringstream d; d << o.str() << ": cells (oriented vertex-label tuples) are";
+                for (auto &t : post_cells) d << " " << vstr(t);
+                d << " expected";
+                for (auto &t : want) d << " " << vstr(t);
+                vs.push_back({std::string("c15:cells-after:") + OPNAMES[o.k], d.str()});
+            }
+            size_t ntets = 0; for (int c = 0; c < bf1.nc; ++c) if (!bf1.cdel[c]) ++ntets;
+            if (ntets != post_cells.size()) VIOL(vs, std::string("c15:degenerate-or-duplicate-cell-after:") + OPNAMES[o.k], o.str() << ": " << ntets << " live cells but " << post_cells.size() << " distinct proper tetrahedra");
+#elif defined(MC_HEX)
+            if (o.k == ADD_CELL_V) {
+                st.outcomes["c16-add_cell_v"].insert(opres.ret >= 0 ? "accepted" : "rejected");
+                if (opres.ret < 0) VIOL(vs, "c16:add_cell(vertices):rejected", o.str() << " over an existing free closed surface was rejected");
+                else {
+                    if (s.m.n_faces() != c16_nf) VIOL(vs, "c16:add_cell(vertices):duplicated-faces", o.str() << " created " << s.m.n_faces() - c16_nf << " new faces although all six exist");
+                    if (s.m.n_cells() != c16_nc + 1 || (size_t)opres.ret != c16_nc) VIOL(vs, "c16:add_cell(vertices):not-appended", o.str());
+                    std::set<int> given, got;
+                    for (int i = 1; i <= 8; ++i) given.insert(o.a[i]);
+                    Bf bf1(s.m);
+                    if (!bf1.malformed) { got = bf1.cv(opres.ret); if (got != given) VIOL(vs, "c16:add_cell(vertices):vertex-set", o.str()); }
+                }
+            }
+#endif
+            return;  // the ordinary reference transition does not model these composite operations; the state invariants do the rest
+        }
         if (c03) for (auto &v : dv) vs.push_back({"c03:" + v.rule, v.detail});
         if (need_abs) {
             Viols ev;
             Abs post = extract(s, ev);
-            const char *pfx = c02 ? "c02:" : c03 ? "c03:label-" : c12 ? "c12:" : c11 ? "c11:" : "c17:";
+            const char *pfx = c02 ? "c02:" : c03 ? "c03:label-" : c12 ? "c12:" : c11 ? "c11:" : c04 ? "c04:" : c15 ? "c15:" : c16 ? "c16:" : "c17:";
             if (!ev.empty()) { vs.push_back({pfx + ev[0].rule, ev[0].detail}); return; }
             Abs exp = pre;
             Viols av;
-            if (c11 && c11_expect >= 0) {
+            if ((c11 || c16) && c11_expect >= 0) {
                 st.hit("c11-probes");
                 if (st.outcomes["c11-verdicts"].size() < 16) st.outcomes["c11-verdicts"].insert(std::string(OPNAMES[o.k]) + ":" + std::to_string(c11_expect) + ":" + (opres.ret >= 0 ? "acc" : "rej"));
                 bool accepted = opres.ret >= 0;
@@ -282,7 +376,7 @@ struct PropChecks {
             }
 #if defined(MC_HEX)
             // hex kernel: a topology-checked add_cell may store a re-ordering of the given list (the order itself is C16's business)
-            if (o.k == ADD_CELL_HF && o.a[0] && !(c11 && c11_expect >= 0)) {
+            if (o.k == ADD_CELL_HF && o.a[0] && !((c11 || c16) && c11_expect >= 0)) {
                 auto it = post.Cs.find(pre.nextC());
                 if (it != post.Cs.end() && !it->second.del) {
                     std::vector<int> given(lo.a.begin() + 1, lo.a.end());
@@ -294,6 +388,7 @@ struct PropChecks {
             for (auto &v : av) vs.push_back(v);
             abs_compare(exp, post, (std::string(pfx) + "iso:").c_str(), vs);
             st.hit("iso-compare");
+            if (c04 && o.k == STATUS_GC && vs.empty()) check_c04(s, o, lo, pre, exp, post, c04_vl, c04_hel, c04_hfl, c04_cl, seed, cfg, pre_hist, vs, st);
             if (c02 || c12) { Viols cv; check_counts(s, exp, cv); for (auto &v : cv) vs.push_back({std::string(c02 ? "c02:" : "c12:") + v.rule, v.detail}); st.hit("count-check"); }
         }
         if (c12 && vs.empty()) {
@@ -320,6 +415,70 @@ struct PropChecks {
         }
         if (c03 && vs.empty()) { check_c03_state(s, vs); st.hit("c03-state"); }
         if (c17 && is_swap && vs.empty()) check_swap(s, o, sv_pre, key_pre, vs, st);
+    }
+
+    // C04: after any of the collection entry points the mesh has no pending deletions, equals the logical mesh before
+    // (already established by the label isomorphism with the reference), equals the mesh obtained by performing the
+    // same deletions immediately, tracked handles follow their entities, properties stay attached.
+    void check_c04(Sys &s, const Op &o, const LOp &lo, const Abs &pre, const Abs &exp, const Abs &post, const std::vector<int> &vl, const std::vector<int> &hel,
+                   const std::vector<int> &hfl, const std::vector<int> &cl, const std::string &seed, const Config &cfg, const Hist &pre_hist, Viols &vs, Stats &st) {
+        const Mesh &m = s.m;
+        int mode = o.a[0];
+        st.hit("c04-collections");
+        st.outcomes["c04-modes"].insert(std::to_string(mode) + ":" + std::to_string(o.n - 1) + "marks");
+        if (m.needs_garbage_collection()) VIOL(vs, "c04:still-needs-garbage-collection", o.str());
+        if (m.n_vertices() != m.n_logical_vertices() || m.n_edges() != m.n_logical_edges() || m.n_faces() != m.n_logical_faces() || m.n_cells() != m.n_logical_cells()) VIOL(vs, "c04:physical-vs-logical-counts", o.str());
+        { Viols cv; check_counts(s, exp, cv); for (auto &v : cv) vs.push_back({"c04:" + v.rule, v.detail}); }
+        { Viols pv; check_c03_state(s, pv); for (auto &v : pv) vs.push_back({"c04:" + v.rule, v.detail}); }
+        if (!vs.empty()) return;
+        // tracked handles (modes 4, 5): the handle designates the entity with the same label, or is invalid iff that entity was removed
+        if (mode >= 4) {
+            auto chk = [&](const char *kind, auto &trk, const std::vector<int> &labels, auto cur_label, size_t n_now) {
+                for (size_t i = 0; i < trk.size(); ++i) {
+                    int old = (int)i - 1;  // slot 0 holds the invalid handle
+                    int got = trk[i].idx();
+                    if (old < 0) { if (got >= 0) VIOL(vs, std::string("c04:tracked-invalid-became-valid:") + kind, o.str()); continue; }
+                    int label = labels[old];
+                    int want = -1;
+                    if (label >= 0) for (size_t h = 0; h < n_now; ++h) if (cur_label((int)h) == label) want = (int)h;
+                    if (got != want) VIOL(vs, std::string("c04:tracked-handle:") + kind, o.str() << ": " << kind << " handle " << old << " (label id " << label << ") became " << got << ", expected " << want);
+                }
+            };
+            chk("vertex", s.trk_v, vl, [&](int h) { return s.vl[VertexHandle(h)]; }, m.n_vertices());
+            chk("halfedge", s.trk_he, hel, [&](int h) { return 2 * s.el[EdgeHandle(h / 2)] + (h & 1); }, m.n_halfedges());
+            chk("halfface", s.trk_hf, hfl, [&](int h) { return 2 * s.fl[FaceHandle(h / 2)] + (h & 1); }, m.n_halffaces());
+            chk("cell", s.trk_c, cl, [&](int h) { return s.cl[CellHandle(h)]; }, m.n_cells());
+            st.hit("c04-tracked-handle-checks", (long)(s.trk_v.size() + s.trk_he.size() + s.trk_hf.size() + s.trk_c.size()));
+        }
+        if (!vs.empty()) return;
+        // differential: a twin in which the same entities are deleted immediately (no deferral)
+        if (mode <= 3) {
+            g_phase = "c04-twin";
+            Sys t(cfg);
+            build_seed(t, seed);
+            for (auto &po : pre_hist) { exec_op(t, po); t.label_new(); }
+            t.m.enable_deferred_deletion(false);
+            auto find = [&](int kind, int label) -> int {
+                size_t n = kind == 0 ? t.m.n_vertices() : kind == 1 ? t.m.n_edges() : kind == 2 ? t.m.n_faces() : t.m.n_cells();
+                for (size_t i = 0; i < n; ++i) { int l = kind == 0 ? t.vl[VertexHandle((int)i)] : kind == 1 ? t.el[EdgeHandle((int)i)] : kind == 2 ? t.fl[FaceHandle((int)i)] : t.cl[CellHandle((int)i)]; if (l == label) return (int)i; }
+                return -1;
+            };
+            for (size_t i = 1; i + 1 < lo.a.size(); i += 2) {
+                int kind = lo.a[i], h = find(kind, lo.a[i + 1]);
+                if (h < 0) continue;
+                if (kind == 0) t.m.delete_vertex(VertexHandle(h)); else if (kind == 1) t.m.delete_edge(EdgeHandle(h)); else if (kind == 2) t.m.delete_face(FaceHandle(h)); else t.m.delete_cell(CellHandle(h));
+            }
+            if (mode != 3) {
+                Viols ev;
+                Abs ta = extract(t, ev);
+                Abs pa = post;
+                ta.deferred = pa.deferred; ta.vbu = pa.vbu; ta.ebu = pa.ebu; ta.fbu = pa.fbu;
+                if (!ev.empty()) VIOL(vs, "c04:twin:" + ev[0].rule, ev[0].detail);
+                else abs_compare(pa, ta, "c04:immediate-twin:", vs);
+                st.hit("c04-immediate-twin-compare");
+            }
+        }
+        g_phase = "post-check";
     }
 
     void check_swap(Sys &s, const Op &o, const SlotView &pre, const std::string &key_pre, Viols &vs, Stats &st) {
@@ -354,6 +513,8 @@ struct PropChecks {
         st.hit("swap-involution-check");
     }
 
+#include "oracle_c13.inc"
+
     void state_checks(const Sys &s, Viols &vs, Stats &st) {
         if (c01) {
             Bf bf(s.m);
@@ -369,6 +530,8 @@ struct PropChecks {
             if (c09) { g_phase = "c09"; check_c09(s, bf, vs, st); }
             if (c10) { g_phase = "c10"; check_c10(s, bf, vs, st); }
         }
+        if (c13) { g_phase = "c13"; check_c13(s, vs, st); }
+        if (c15 || c16) { Bf bf(s.m); if (!bf.malformed) { g_phase = "c15/c16"; check_special_kernel(s, bf, vs, st, c15, c16); } }
         if (c12) {
             Bf bf(s.m);
             Viols cv;
